@@ -73,6 +73,11 @@ ChangeRel(pre, post, q, dest) ==
 \* ---- change: the algorithm (as repaired in /repo: bytes of the new output and of the count      *)
 \* ---- varint growth are charged at the standard rate) --------------------------------------------
 VarIntGrowth(n) == IF n = 252 THEN 2 ELSE IF n = 65535 THEN 2 ELSE 0
+\* the fee the change computation reserves (a function of sizes and the quote only, not of amounts)
+ChangeFees(pre, q, dest) ==
+    LET sz == EstSizes(pre)
+        extra == IF dest.kind = "new" THEN OutSize([slen |-> dest.slen]) + VarIntGrowth(Len(pre.outs)) ELSE 0
+    IN FeeOf(sz.std + extra, q.ss, q.sb) + FeeOf(sz.data, q.ds, q.db)
 ChangeAlg(pre, q, dest) ==
     IF SumIn(pre) < SumOut(pre) \/ ~Estimable(pre) THEN [ok |-> FALSE, post |-> pre]
     ELSE LET avail == SumIn(pre) - SumOut(pre)
